@@ -189,18 +189,21 @@ mod verif_segtree {
     }
 
     /// one step of `add_split` from an arbitrary tree: effect on the view, invariant preserved
-    /// (with the delta bound grown by the argument bound)
-    fn step_add_split<const N: usize, const LEN: usize>() {
+    /// (with the delta bound grown by the argument bound).  The split point ranges over LO..=HI;
+    /// the instances for one size together cover 0..=size (case split to keep SAT instances small).
+    fn step_add_split<const N: usize, const LEN: usize, const LO: usize, const HI: usize>() {
         let size = N.next_power_of_two();
         let mut t = any_tree::<N, LEN>();
         let mut model = view::<N>(&t);
         let i: usize = kani::any();
         let l: i32 = kani::any();
         let r: i32 = kani::any();
-        kani::assume(i <= size && bounded(l, BOUND) && bounded(r, BOUND));
-        kani::cover!(true, "valid add_split arguments exist");
-        kani::cover!(size < 2 || (i != 0 && i != size), "inner split point reachable (if there is one)");
-        kani::cover!(size == N || i > N, "split point inside the padding is reachable (if there is padding)");
+        assert!(HI <= size);
+        kani::assume(LO <= i && i <= HI && bounded(l, BOUND) && bounded(r, BOUND));
+        kani::cover!(i == LO, "lower end of the split point range reachable");
+        kani::cover!(i == HI, "upper end of the split point range reachable");
+        kani::cover!(size < 2 || HI == 0 || LO == size || (i != 0 && i != size), "inner split point reachable (if there is one)");
+        kani::cover!(HI <= N || i > N, "split point inside the padding is reachable (if the range has one)");
 
         t.add_split(i, l, r);
 
@@ -253,13 +256,18 @@ mod verif_segtree {
     harness!(api_n7_s2, 10, api_sequence::<7, 2>());
     harness!(api_n8_s2, 10, api_sequence::<8, 2>());
 
-    harness!(step_add_split_n1, 4, step_add_split::<1, 2>());
-    harness!(step_add_split_n2, 6, step_add_split::<2, 4>());
-    harness!(step_add_split_n3, 10, step_add_split::<3, 8>());
-    harness!(step_add_split_n4, 10, step_add_split::<4, 8>());
-    harness!(step_add_split_n5, 18, step_add_split::<5, 16>());
-    harness!(step_add_split_n7, 18, step_add_split::<7, 16>());
-    harness!(step_add_split_n8, 18, step_add_split::<8, 16>());
+    harness!(step_add_split_n1, 4, step_add_split::<1, 2, 0, 1>());
+    harness!(step_add_split_n2, 6, step_add_split::<2, 4, 0, 2>());
+    harness!(step_add_split_n3, 10, step_add_split::<3, 8, 0, 4>());
+    harness!(step_add_split_n4, 10, step_add_split::<4, 8, 0, 4>());
+    harness!(step_add_split_n5, 18, step_add_split::<5, 16, 0, 8>());
+    // sizes 7 and 8: split point range 0..=8 divided into three instances
+    harness!(step_add_split_n7_i0to2, 18, step_add_split::<7, 16, 0, 2>());
+    harness!(step_add_split_n7_i3to5, 18, step_add_split::<7, 16, 3, 5>());
+    harness!(step_add_split_n7_i6to8, 18, step_add_split::<7, 16, 6, 8>());
+    harness!(step_add_split_n8_i0to2, 18, step_add_split::<8, 16, 0, 2>());
+    harness!(step_add_split_n8_i3to5, 18, step_add_split::<8, 16, 3, 5>());
+    harness!(step_add_split_n8_i6to8, 18, step_add_split::<8, 16, 6, 8>());
 
     harness!(step_min_index_n1, 4, step_min_index::<1, 2>());
     harness!(step_min_index_n2, 6, step_min_index::<2, 4>());
